@@ -272,7 +272,7 @@ PROPS["C01"] = {
     "bounds": {"reads_per_event": 2, "sizes": "<= 2^31", "handler": "one of none/Read/Next/Peek+Discard/WriteTo per event with symbolic sizes"},
     "outside": ["real kernel behaviour beyond the stub contract", "cross-event schedules (covered inductively by the invariant)"],
     "assumptions": ["ghost kernel contract", "pool contracts (C12)"],
-    "units": [dict(_LOOP_COMMON, name="loop-inbound", files=["harness/gnet/vloop_world.go", "harness/gnet/c01_inbound.go"], cfg={"vcfg": {"reads": 1, "nodes": 1}}, cfg_thorough={"vcfg": {"reads": 2, "nodes": 1}})],
+    "units": [dict(_LOOP_COMMON, name="loop-inbound", files=["harness/gnet/vloop_world.go", "harness/gnet/c01_inbound.go"], cfg={"vcfg": {"reads": 1, "nodes": 1, "any_inbound_et": 0}}, cfg_thorough={"vcfg": {"reads": 2, "nodes": 1, "any_inbound_et": 1}})],
 }
 
 PROPS["C04"] = {
